@@ -130,7 +130,7 @@ def cases_for(rng, tier):
 
 
 DENSE_SHARE = 0.10                     # share of the mixed / sessions / tail / grow / tree histories that may create new-style groups
-DENSE_BUDGET = {"quick": 6, "thorough": 240}      # files judged by the Coq walker (about 5 s of one core each)
+DENSE_BUDGET = {"quick": 6, "thorough": 120}      # files judged by the Coq walker (about 5 s of one core each)
 DENSE_MAXSIZE = 1700000                # bytes handed to Coq per file (a file with three dense groups)
 
 
@@ -408,6 +408,42 @@ def judge_dense(orc, cq, size):
         P.append("tree: the file holds reachable objects the history did not create: %s" % [o["path"] for o in extra][:4])
     return dict(problems=P[:8], tags=tags, objects=len(cq["tree"]), dense_groups=sum(1 for _, (oid, o) in exp.items() if o.kind == "group" and getattr(o, "dense", False)),
                 dense_links=sum(len(o.children) for _, (oid, o) in exp.items() if o.kind == "group" and getattr(o, "dense", False)))
+
+
+def dense_link_tie(judged, limit=400):
+    """Model/DenseLinkMsg.v enc_dense_link (transcription of internal/writer/densegroup_writer.go createLinkMessage; theorems
+    C05_dense_link_* in Props/C05Walk.v) against the library: for every link of every dense group of the files the Coq walker judged, the
+    model's bytes for (name, target address) must occur in the written file (they are a managed object of the group's fractal heap).
+    judged: [(case, orc, data, cq)] -> (violations, stats)"""
+    pairs = []
+    for i, (c, orc, data, cq) in enumerate(judged):
+        if not cq.get("accept") or c05walk.XTAGS["dense-link-private-layout"] not in cq["tags"]:
+            continue
+        dense = {(p.rstrip("/") or "/") for p in dense_paths(orc.expected())}
+        for o in cq["tree"]:
+            if o["kind"] == 1 and o["path"].decode("utf-8", "surrogateescape") in dense:
+                for (lt, nm), tg in zip(o["links"], o["targets"]):
+                    if lt == 0 and len(pairs) < limit:
+                        pairs.append((i, nm, tg))
+    if not pairs:
+        return [], dict(dense_link_messages_compared=0)
+    v = "From HV Require Import Base.Prelude Model.DenseLinkMsg.\nOpen Scope string_scope.\nOpen Scope N_scope.\n"
+    v += "Definition ps : list (string * N) := [%s].\n" % "; ".join('("%s", %d)' % (nm.hex(), tg) for _, nm, tg in pairs)
+    v += "Definition r := Eval vm_compute in map (fun p => enc_dense_link (unhex (fst p)) (snd p) 8) ps.\nPrint r.\n"
+    got = c05walk.parse_nested(vlib.coq_eval(v, "c05denselink"), "r")
+    viol = []
+    if len(got) != len(pairs):
+        raise RuntimeError("c05denselink: %d results for %d links" % (len(got), len(pairs)))
+    ok = 0
+    for (i, nm, tg), bs in zip(pairs, got):
+        c, orc, data, cq = judged[i]
+        if bytes(bs) in data:
+            ok += 1
+        elif not viol:
+            viol.append(dict(what="the model of the densely stored link message (Model.DenseLinkMsg.enc_dense_link) for link %r -> %d gives %s, which does not occur in the file the library wrote" % (nm, tg, bytes(bs).hex()),
+                             case={k: c[k] for k in ("sb", "ops") if k in c}, nofail=True,
+                             correspondence="Model.DenseLinkMsg.enc_dense_link vs internal/writer/densegroup_writer.go createLinkMessage (bytes of the heap object in the written file)"))
+    return viol, dict(dense_link_messages_compared=len(pairs), dense_link_messages_model_equals_file=ok)
 
 
 def judge_file(case, r, coq=False):
@@ -846,6 +882,7 @@ def run(ctx):
             nbad += 1
             if first_bad is None:
                 first_bad = (c, j)
+    dl_viol, dl_cov = dense_link_tie([(c, j["orc"], data, cq) for (c, j, data), cq in zip(dense_pending, dense_res)])
     unjudged_dense = dense_seen - len(dense_pending)
     dense_wall = round(_time.time() - _t0, 1)
     if first_bad is not None:
@@ -899,6 +936,7 @@ def run(ctx):
         side_ok += 1
     viol += spec_viol
     viol += walk_viol
+    viol += dl_viol
     cov = dict(evaluations=nfiles, distinct_nontrivial=len(nontrivial),
                rule="one evaluation = one closed file written by the real library from a generated API history, walked by the independent decoder "
                     "(bounds, disjointness, consistency, decoded tree == oracle, deviation tags within the known list); a file is non-trivial when at least two "
@@ -915,6 +953,7 @@ def run(ctx):
                side_obligations=side, side_discharged=side_ok, programs=nfiles, disagreements_checked=nfiles)
     cov.update(spec_cov)
     cov.update(walk_cov)
+    cov.update(dl_cov)
     return dict(violations=viol, known=known_lines, coverage=cov)
 
 
